@@ -316,10 +316,12 @@ Definition set_connptr (w : wref) (p : connptr) (st : state) : state :=
   end.
 
 (* ~trackable of a rep: notify_object_invalidated on every registered weak_raw_ptr *)
+(* a registered handle that no longer exists cannot occur on reachable states (watch lists are exact,
+   SigWatch.v); on other states the notification writes nothing rather than bringing the handle back *)
 Fixpoint null_watchers (ws : list wref) (st : state) : state :=
   match ws with
   | [] => st
-  | w :: r => null_watchers r (set_connptr w None st)
+  | w :: r => null_watchers r (match get_connptr w st with Some _ => set_connptr w None st | None => st end)
   end.
 
 (* weak_raw_ptr(T* p) / copy: p->add_destroy_notify_callback(this, ...) through
@@ -816,6 +818,8 @@ Inductive op :=
 | OCAssign (cd cs : N)
 | OCDisc (c : N)
 | OCBlock (c : N) (b : bool)
+| OCShare (c : N)          (* the connection object c becomes co-owned (std::shared_ptr) by the program and by functor copies *)
+| OCRelease (c : N)        (* the program drops its own shared_ptr to connection object c *)
 | OCDel (c : N)
 | OCQuery (c : N)
 | OKNew (k c : N)
@@ -1141,8 +1145,12 @@ Section Interp.
   Definition prog_track (t : N) (st : state) : option trackable :=
     if is_released t st then None else live_track t st.
 
+  (* connection objects held through shared ownership use the keys 4000 + c *)
+  Definition conn_key (c : N) : N := 4000 + c.
   Definition key_live (k : N) (st : state) : bool :=
-    if N.leb 2000 k
+    if N.leb 4000 k
+    then match get_connptr (WC (k - 4000)) st with Some _ => true | None => false end
+    else if N.leb 2000 k
     then match live_sig (k - 2000) st with Some _ => true | None => false end
     else match live_track k st with Some _ => true | None => false end.
 
@@ -1239,7 +1247,12 @@ Section Interp.
         match fuel with
         | O => Err ErrLoop
         | S f =>
-            if N.leb 2000 t
+            if N.leb 4000 t
+            then match get_connptr (WC (t - 4000)) st with
+                 | Some p => st1 <- watch_remove p (WC (t - 4000)) st ;; gc f (with_conns (aset (t - 4000) None (conns st1)) st1)
+                 | None => Err ErrLoop
+                 end
+            else if N.leb 2000 t
             then match live_sig (t - 2000) st with
                  | Some go => st1 <- sig_destroy (t - 2000) go st ;; gc f st1
                  | None => Err ErrLoop
@@ -1579,9 +1592,23 @@ Section Interp.
         | Some p => conn_block p b st
         | None => skip st
         end
+    | OCShare c =>
+        match get_connptr (WC c) st with
+        | Some _ => if negb (is_shared (conn_key c) st) && N.ltb c 1000
+                    then Done (with_shared (aset (conn_key c) false (shared st)) st) tt else skip st
+        | None => skip st
+        end
+    | OCRelease c =>
+        match get_connptr (WC c) st with
+        | Some _ => if is_shared (conn_key c) st && negb (is_released (conn_key c) st)
+                    then Done (with_shared (aset (conn_key c) true (shared st)) st) tt else skip st
+        | None => skip st
+        end
     | OCDel c =>
         match get_connptr (WC c) st with
-        | Some p => liftu (st1 <- watch_remove p (WC c) st ;; Ok (with_conns (aset c None (conns st1)) st1))
+        | Some p => if negb (is_shared (conn_key c) st)
+                    then liftu (st1 <- watch_remove p (WC c) st ;; Ok (with_conns (aset c None (conns st1)) st1))
+                    else skip st
         | None => skip st
         end
     | OCQuery c =>
